@@ -53,7 +53,8 @@ def mk_net(loop):
 
 
 WAITER_KINDS = ['srv_status_any', 'srv_status_user', 'srv_status_user_status', 'srv_status_pred_then_user',
-                'srv_cannot_connect', 'peer_reply_ticket', 'peer_reply_any', 'peer_failed_file', 'registered_status_user']
+                'srv_cannot_connect', 'peer_reply_ticket', 'peer_reply_any', 'peer_failed_file', 'registered_status_user',
+                'peer_reply_reason_none', 'peer_reply_ticket_reason']
 MSG_KINDS = ['srv_status', 'srv_cannot_connect', 'peer_reply', 'peer_failed']
 
 
@@ -76,6 +77,13 @@ def make_waiter(c, net, kind, i):
                 [('ticket', 'eq', c.fresh_int(f'ticket_w{i}', 0, 2**32 - 1))])
     elif kind == 'peer_reply_any':
         spec = (PeerConnection, PeerTransferReply.Request, tok(c, f'p_w{i}'), [])
+    elif kind == 'peer_reply_reason_none':
+        # an expected value of None means: the (optional) field must be absent
+        spec = (PeerConnection, PeerTransferReply.Request, tok(c, f'p_w{i}'),
+                [('ticket', 'eq', c.fresh_int(f'ticket_w{i}', 0, 2**32 - 1)), ('reason', 'eq', None)])
+    elif kind == 'peer_reply_ticket_reason':
+        spec = (PeerConnection, PeerTransferReply.Request, tok(c, f'p_w{i}'),
+                [('reason', 'eq', tok(c, f'r_w{i}')), ('filesize', 'eq', None)])
     elif kind == 'peer_failed_file':
         spec = (PeerConnection, PeerUploadFailed.Request, tok(c, f'p_w{i}'), [('filename', 'eq', tok(c, f'f_w{i}'))])
     else:
@@ -101,7 +109,11 @@ def make_message(c, net, kind, j):
         msg = CannotConnect.Response(c.fresh_int(f'ticket_m{j}', 0, 2**32 - 1))
     elif kind == 'peer_reply':
         conn = PeerConnection('1.2.3.4', 5, net, username=tok(c, f'p_m{j}'))
-        msg = PeerTransferReply.Request(c.fresh_int(f'ticket_m{j}', 0, 2**32 - 1), c.fresh_bool(f'allowed_m{j}'))
+        # optional trailing fields of the reply: each absent (None) or present with a symbolic value
+        opt = c.choose(3, f'optshape_m{j}')
+        msg = PeerTransferReply.Request(c.fresh_int(f'ticket_m{j}', 0, 2**32 - 1), c.fresh_bool(f'allowed_m{j}'),
+                                        filesize=c.fresh_int(f'filesize_m{j}', 0, 2**64 - 1) if opt == 1 else None,
+                                        reason=tok(c, f'r_m{j}') if opt == 2 else None)
     elif kind == 'peer_failed':
         conn = PeerConnection('1.2.3.4', 5, net, username=tok(c, f'p_m{j}'))
         msg = PeerUploadFailed.Request(tok(c, f'f_m{j}'))
@@ -120,9 +132,14 @@ def answers(spec, conn, msg):
         conds.append(conn.username == peer)
     for f, op, v in fl:
         a = getattr(msg, f)
+        if a is None or v is None:
+            conds.append((a is None) == (v is None) if op == 'eq' else False)
+            continue
         conds.append(a == v if op == 'eq' else a > v)
     if not conds:
         return True
+    if any(x is False for x in conds):
+        return False
     if all(isinstance(x, bool) for x in conds):
         return all(conds)
     return And(*conds)
@@ -240,7 +257,8 @@ def h_timeout(c, api='server', timeout=10, scenario='silence'):
     if api == 'server':
         coro = net.wait_for_server_message(GetUserStatus.Response, {'username': u}, timeout=timeout)
     else:
-        coro = net.wait_for_peer_message(tok(c, 'p_w'), PeerUploadFailed.Request, {'filename': u}, timeout=timeout)
+        coro_peer = tok(c, 'p_w')
+        coro = net.wait_for_peer_message(coro_peer, PeerUploadFailed.Request, {'filename': u}, timeout=timeout)
     task = loop.spawn(coro)
     loop.run_ready()
     other = loop.call(net.create_server_response_future, GetUserStatus.Response, {'username': u})
@@ -252,12 +270,33 @@ def h_timeout(c, api='server', timeout=10, scenario='silence'):
         c.check(exc is None, 'dispatch_no_exception', sig=['timeout', scenario])
     loop.advance_to(timeout - 0.001)
     c.check(not task.done(), 'no_timeout_before_deadline', sig=[api, scenario])
+    if scenario == 'message_in_timeout_iteration':
+        # the answer is processed in the very loop iteration in which the time-out becomes due, ahead of the timer
+        # callback: the request may end with the answer or with TimeoutError, never with an internal-state error
+        loop._time = float(timeout)
+        loop._move_due_timers()   # the time-out callback is already in the ready queue when the answer is dispatched
+        if api == 'server':
+            conn0, msg0 = ServerConnection('srv', 2242, net), GetUserStatus.Response(u, 1, False)
+        else:
+            conn0, msg0 = PeerConnection('1.2.3.4', 5, net, username=coro_peer), PeerUploadFailed.Request(u)
+        _, exc = drive_inline(loop, net.on_message_received(msg0, conn0))
+        c.check(exc is None, 'dispatch_no_exception', sig=['timeout', scenario], info=repr(exc))
+        loop.run_ready()
+        loop.advance(0.001)
+        c.reach('timeout_end')
+        c.check(task.done(), 'timeout_fires_at_deadline', sig=[api, scenario])
+        if task.done():
+            exc = None if task.cancelled() else task.exception()
+            ok = (exc is None and not task.cancelled() and task.result() is msg0) or isinstance(exc, TimeoutError)
+            c.check(ok, 'timeout_is_timeout_error', sig=[api, scenario], info=repr(exc))
+        c.check(len([f for f in net._expected_response_futures if f is not other]) == 0, 'no_residue', sig=['timeout', scenario])
+        c.check(not loop.errors, 'no_loop_errors', info=repr(loop.errors[:1]))
+        loop.cleanup()
+        return
     if scenario == 'cancelled_then_message':
         loop.call(task.cancel)
     else:
         loop.advance_to(timeout)
-    if scenario == 'message_in_timeout_iteration':
-        pass
     # a message for the *other* waiter arrives in the same loop iteration as the time-out / cancellation
     conn = ServerConnection('srv', 2242, net)
     msg = GetUserStatus.Response(u, 1, False)
@@ -355,9 +394,9 @@ META = {
               'user/peer/file names are Int tokens while symbolic and strings in concrete replay (only ==/!= is applied to them)'],
     'data_variables': ['ticket (0..2^32-1)', 'status 0..3', 'predicate threshold k', 'user / peer / file name tokens (4 values each)',
                        'privileged / allowed flags'],
-    'discriminants': ['registration API and matcher shape per waiter (9 kinds)', 'cancelled-this-iteration per waiter', 'message kind (4)',
+    'discriminants': ['registration API and matcher shape per waiter (11 kinds incl. None-valued matchers)', 'optional fields of the reply absent/present', 'cancelled-this-iteration per waiter', 'message kind (4)',
                       'number of back-to-back messages', 'timeout scenario'],
-    'bounds': {'quick': {'waiters': '1..2 (all 9 kinds, all pairs)', 'messages_back_to_back': 2, 'timeouts': [10, 60]},
+    'bounds': {'quick': {'waiters': '1..2 (all 11 kinds, all pairs)', 'messages_back_to_back': 2, 'timeouts': [10, 60]},
                'thorough': {'waiters': '1..3 (all kinds; triples over 5 representative kinds)', 'messages_back_to_back': 2}},
     'outside': ['more waiters/messages than the bound', 'other message classes (matching code is class-generic)',
                 'real sockets: messages are handed to on_message_received directly, as DataConnection._perform_message_callback does'],
@@ -380,7 +419,7 @@ def jobs(tier):
                 for d in rep:
                     out.append({'harness': 'dispatch', 'fn': h_dispatch, 'params': {'kinds': [a, b, d]}, 'requires': ['dispatched']})
     for api in ('server', 'peer'):
-        for sc in ('silence', 'non_answer', 'cancelled_then_message'):
+        for sc in ('silence', 'non_answer', 'cancelled_then_message', 'message_in_timeout_iteration'):
             for to in ([10] if tier == 'quick' else [0.5, 10, 60]):
                 out.append({'harness': 'timeout', 'fn': h_timeout, 'params': {'api': api, 'timeout': to, 'scenario': sc},
                             'requires': ['timeout_end']})
